@@ -76,6 +76,14 @@ def run(ctx):
             {"kep": [2.66e7, 0.7, 1.1], "nus": [0.0, 0.5, 3.0, 3.3], "das": [10.0, 1.0e3], "angles": [(0.0, 1e-4, 0.0), (1.0, 1e-6, 1e-6)]}]
     payloads = [{"local": local[i::8]} for i in range(8) if local[i::8]]
     payloads += [{"numman": tls[i::8]} for i in range(8) if tls[i::8]]
+    grav = []
+    for method in ("rk4", "dopri54", "rkf54", "euler"):
+        for t in ([61, 75, 90, 100, 119, 120, 137, 150, 163, 179] if not thorough else list(range(61, 301, 7))):
+            grav.append({"method": method, "t": t, "H": 60, "dv": [1.0, 0.0, 0.0], "frame": "TNW"})
+            if thorough:
+                grav.append({"method": method, "t": t, "H": 30, "dv": [0.0, 0.0, 2.0], "frame": "QSW"})
+    for i, pl in enumerate(payloads):
+        pl["gravman"] = grav[i::len(payloads)]
     payloads[0]["offgrid"] = offgrid
     payloads[0]["dkep"] = dkep
     for res in ctx.harness_parallel("local_replay.py", payloads, procs=16, timeout=3000):
